@@ -9,7 +9,7 @@ from .common import LEAN, REPO, write_if_changed
 sys.path.insert(0, str(Path(__file__).resolve().parent.parent))
 
 
-ALL = ("scopemap", "builtin", "envconfig", "checkapi", "skeletons", "alias", "registry", "columnprops")
+ALL = ("scopemap", "builtin", "envconfig", "checkapi", "skeletons", "alias", "registry", "columnprops", "scriptslots")
 
 
 def regenerate(which=("scopemap",)) -> dict:
@@ -49,6 +49,9 @@ def regenerate(which=("scopemap",)) -> dict:
     if "columnprops" in which:
         from extract import columnprops
         write_if_changed(gen / "ColumnProps.lean", columnprops.render(REPO))
+    if "scriptslots" in which:
+        from extract import scriptslots
+        write_if_changed(gen / "ScriptSlots.lean", scriptslots.render(REPO))
     if "builtin" in which:
         from extract import builtin_checks
         write_if_changed(gen / "BuiltinChecks.lean", builtin_checks.render(REPO))
